@@ -1,10 +1,13 @@
 (** C04 — Timeouts are sound: never both received and timed out, never early.
-    Partial: the statements below are the per-chain halves and the honest-client meaning of "proven"; the
-    end-to-end two-chain invariant that glues them (snapshot bookkeeping of Core/World.v: header h carries the
-    time of block h and the state after block h-1, heights and times of a chain never decrease) is exercised
-    by the `core` correspondence family and its monitor on real chains, not mechanised as one theorem. *)
+    End to end for IBC v1 (MsgTimeout, ORDERED and UNORDERED channels): [C04_end_to_end] below, an invariant of
+    the two-chain world with honest Tendermint-like clients (header h carries the time of block h and the state
+    after block h-1; heights of a chain increase, its times never decrease).
+    Partial for IBC v2 and MsgTimeoutOnClose: the per-chain halves ([C04_timeout2_guards],
+    [C04_no_receive_after_elapsed], [C04_receipts_persist], [C04_honest_nonmembership]) are proved; their
+    two-chain composition is exercised by the `core` correspondence family and its cross-chain monitor only. *)
 From IBC Require Import Core.ChainExamples.
-From IBC Require Import Lib.Bytes Core.Height Core.HeightFacts Core.Chain Core.World Core.WorldFacts Core.ChainFacts Core.ChainInv Core.ChainThms.
+From IBC Require Import Lib.Bytes Core.Height Core.HeightFacts Core.Chain Core.World Core.WorldFacts Core.ChainFacts Core.ChainInv Core.ChainThms
+  Core.WorldInv Core.WorldInv2 Core.WorldInv3 Core.WorldThm.
 Local Open Scope N_scope.
 
 (** source side, v1: a timeout is processed only if the consensus state at the proof height exists, the
@@ -73,6 +76,57 @@ Theorem C04_world_localhost_is_loopback other me pf lh sc nc :
   loopback_client (honest_env other me pf lh sc nc) (w_chain me) lh.
 Proof. exact (world_loopback other me pf lh sc nc). Qed.
 Print Assumptions C04_world_localhost_is_loopback.
+
+(** *** end to end (IBC v1).  [irun] runs the two-chain world of Core/World.v on any list of blocks (each block: one
+    packet message with any proof and proof height, a client update, a freeze, or nothing) and keeps ghost logs of the
+    accepted MsgRecvPacket ([g_rlog]: destination key, source key, commitment, block, ordering of the receiving end,
+    light client used) and MsgTimeout ([g_tlog]) messages; the logs do not influence the run ([irun_world]).
+    [WI] is the invariant; it holds for chains that have clients with consensus states but no packet history yet
+    ([wi_base]) and is preserved by every block in which the chain's height increases and its time does not decrease.
+    Conclusion: an accepted MsgTimeout for a packet on one chain and an accepted MsgRecvPacket for the packet with the
+    same source and destination keys on the other chain never both occur — whichever comes first — when both channel
+    ends have the same ordering (C12), on channels over a remote (non-loopback) client. *)
+Theorem C04_end_to_end x l :
+  WI x -> good_steps x l ->
+  let y := irun x l in
+  (forall e r, In e (g_tlog (ga y)) -> In r (g_rlog (gb y)) ->
+     t_client e <> w_lh (iw y) -> r_client r <> w_lh (iw y) ->
+     t_dst e = r_dst r -> t_src e = r_src r -> t_ord e = r_ord r -> False) /\
+  (forall e r, In e (g_tlog (gb y)) -> In r (g_rlog (ga y)) ->
+     t_client e <> w_lh (iw y) -> r_client r <> w_lh (iw y) ->
+     t_dst e = r_dst r -> t_src e = r_src r -> t_ord e = r_ord r -> False).
+Proof. exact (timeout_excludes_receive x l). Qed.
+Print Assumptions C04_end_to_end.
+
+Theorem C04_invariant_initially w :
+  base_chain (wa w) -> base_chain (wb w) -> base_clients (wa w) (wb w) -> base_clients (wb w) (wa w) ->
+  WI (mkIW w ghost0 ghost0).
+Proof. exact (wi_base w). Qed.
+Print Assumptions C04_invariant_initially.
+
+Theorem C04_ghosts_do_not_influence x l :
+  iw (irun x l) = fold_left (fun w s => fst (wstep w (ws_side s) (ws_h s) (ws_t s) (ws_op s))) l (iw x).
+Proof. exact (irun_world x l). Qed.
+Print Assumptions C04_ghosts_do_not_influence.
+
+(** the logs record exactly the accepted messages *)
+Theorem C04_logs_record_accepted_messages g pre o h t out :
+  (forall r, In r (g_rlog (gupd g pre o h t out)) -> In r (g_rlog g) \/
+     exists p ph rl ch kk, out = Ok /\ packet_of o = Some (ORecv1 p ph rl) /\ chan_conn pre (p_dp p, p_dc p) = Some (ch, kk) /\
+       r = mkR (p_dp p, p_dc p, p_seq p) (p_sp p, p_sc p, p_seq p) (commit1 p) h t (c_ord ch) (k_client kk)) /\
+  (forall e, In e (g_tlog (gupd g pre o h t out)) -> In e (g_tlog g) \/
+     exists p ph nsr rl ch kk, out = Ok /\ packet_of o = Some (OTimeout1 p ph nsr rl) /\ chan_conn pre (p_sp p, p_sc p) = Some (ch, kk) /\
+       e = mkTE (p_sp p, p_sc p, p_seq p) (p_dp p, p_dc p, p_seq p) (commit1 p) ph (c_ord ch) (k_client kk)).
+Proof. exact (conj (gupd_rlog g pre o h t out) (gupd_tlog g pre o h t out)). Qed.
+Print Assumptions C04_logs_record_accepted_messages.
+
+(** non-vacuity of the end-to-end theorem: a world satisfying [WI], six good blocks (send with timeout height 1-12,
+    three empty blocks on the destination, a client update, MsgTimeout with an honest absence proof of version 12 at
+    proof height 1-13), after which the timeout is in the log and the commitment is gone *)
+Example C04_end_to_end_nonvacuous :
+  WI (mkIW exw ghost0 ghost0) /\ good_steps (mkIW exw ghost0 ghost0) exw_steps /\
+  map t_src (g_tlog (ga (irun (mkIW exw ghost0 ghost0) exw_steps))) = [(1, 10, 1)].
+Proof. exact (conj exw_wi (conj exw_good (proj1 exw_timeout_accepted))). Qed.
 
 (** non-vacuity: a concrete state satisfies the invariant and a concrete 13-step history (duplicates, a failing
     application, an ORDERED timeout, multi-payload v2 receives) produces exactly the expected callbacks *)
